@@ -38,7 +38,7 @@ func (c18) RequiredBuckets(tier string) []string {
 		"match-table:cell", "match-table:row", "literal-bytes", "metachar-queries",
 		"match:multi", "match:overlap-suppressed", "match:ambiguity", "match:case-fold",
 		"search:overlapping", "search:case-fold", "search:hit", "search:no-hit", "empty-inputs",
-	}, "cli:search", "cli:search -e", "cli:search --no-complement", "cli:search RNA record", "cli:search stream", "cli:search query file", "cli:search several queries", "cli:search query longer than a record", "cli:search cache-on")
+	}, "cli:search", "cli:search -e", "cli:search --no-complement", "cli:search RNA record", "cli:search stream", "cli:search query file", "cli:search several queries", "cli:search query longer than a record", "cli:search cache-on", "cli:search query starting with @")
 }
 
 const (
@@ -973,7 +973,12 @@ func (m c18) Run(c *fw.Ctx) {
 		mixed := append([]byte{}, ascii...)
 		mixed = append(mixed, ascii...)
 		rr.Shuffle(len(mixed), func(i, j int) { mixed[i], mixed[j] = mixed[j], mixed[i] })
-		for b := 0; b < 128; b++ {
+		// ... and every byte beyond ASCII (Latin-1 text, stray UTF-8 bytes).
+		all := make([]byte, 256)
+		for i := range all {
+			all[i] = byte(i)
+		}
+		for b := 0; b < 256; b++ {
 			if _, ok := c18Set(byte(b)); ok {
 				continue
 			}
@@ -981,6 +986,9 @@ func (m c18) Run(c *fw.Ctx) {
 			seqs := [][]byte{
 				ascii, mixed, []byte(c18Letters + strings.ToUpper(c18Letters)),
 				{lit}, {lit, lit, lit}, {'a', lit, 'c', lit, lit, 'N'},
+			}
+			if b >= 128 {
+				seqs = [][]byte{all, {lit}, {'a', lit, 'c', lit, lit, 'N'}, {0xc3, lit, 0xa9, lit}}
 			}
 			for _, s := range seqs {
 				if c.NextShared() {
